@@ -36,6 +36,7 @@ type funcVC struct {
 	RetPos   []string
 	Trusted bool
 	tr *fnTrans
+	bvFn string // bit-vector mode: full name of the function (replay)
 }
 
 // buildQuery assembles the SMT text for obligation at item index k.
